@@ -8,10 +8,10 @@
 
    The parameters live in the variable `par` (never changes) so that one TLC run covers several separator lengths /
    limits / both paths, and so that the trace specification can take them from each recorded trace.
-     par.seplen, par.limit, par.maxread, par.path ("copy" | "buf"),
+     par.seplen, par.limit, par.maxread, par.path ("copy" | "buf"), par.emptyerr (an empty frame is a parse error: JSON lines),
      par.faithful: TRUE = LimitOverrunError built from the whole bytearray as the code before the fix did (stale cells
                    leak into the remainder); FALSE = remainder computed from the received bytes only (intended design).   *)
-EXTENDS Naturals, Sequences, FiniteSets, TLC
+EXTENDS Naturals, Sequences, FiniteSets, TLC, SequencesExt
 
 CONSTANTS Params,      \* set of parameter records explored
           MaxStream,   \* bound on the total number of bytes produced by the peer
@@ -46,7 +46,7 @@ Remainder(buffer, cons) ==
   IN IF IsPrefixOf(Sep, r0) THEN SubSeqS(r0, SepLen + 1, Len(r0)) ELSE Skip(r0)
 
 \* deserialize(payload)
-Decode(d) == [k |-> IF \E i \in 1..Len(d) : d[i] = Bad THEN "err" ELSE "pkt", data |-> d]
+Decode(d) == [k |-> IF (\E i \in 1..Len(d) : d[i] = Bad) \/ (par.emptyerr /\ d = <<>>) THEN "err" ELSE "pkt", data |-> d]
 
 Init == /\ par \in Params
         /\ sent = <<>> /\ unread = <<>> /\ rbuf = <<>> /\ off = 0 /\ active = FALSE /\ left = <<>>
@@ -126,42 +126,42 @@ Next == (\E b \in Bytes : PeerSend(b)) \/ (\E n \in 1..par.maxread : CopyRead(n)
 Spec == Init /\ [][Next]_vars
 
 -----------------------------------------------------------------------------
-(* reference: frame-by-frame decoding of a byte string *)
-RECURSIVE Ref(_)
-Ref(s) == LET idx == Find(s, 1, Len(s)) IN
-          IF idx = 0 THEN <<>>
-          ELSE <<IF idx - 1 > Limit THEN [k |-> "limit", data |-> <<>>] ELSE Decode(SubSeqS(s, 1, idx - 1))>>
-               \o Ref(SubSeqS(s, idx + SepLen, Len(s)))
-RECURSIVE MaxPayload(_)
-MaxPayload(s) == LET idx == Find(s, 1, Len(s)) IN
-                 IF idx = 0 THEN Len(s)     \* the unterminated tail counts too
-                 ELSE LET rest == MaxPayload(SubSeqS(s, idx + SepLen, Len(s))) IN IF idx - 1 > rest THEN idx - 1 ELSE rest
+(* reference: frame-by-frame decoding of a byte string.  The separator bytes are pairwise distinct, so occurrences of the
+   separator never overlap: the frames are delimited by all occurrences, in order.  (Written without recursion: TLC
+   re-evaluates recursive definitions far too often for this to be usable inside invariants.) *)
+SepPositions(s) == {i \in 1..(Len(s) - SepLen + 1) : SubSeq(s, i, i + SepLen - 1) = Sep}
+\* frame table: start offset (0-based), end offset (exclusive, after the separator), payload length
+FrameTable(s) ==
+  LET P == SetToSortSeq(SepPositions(s), LAMBDA x, y : x < y) IN
+  [k \in 1..Len(P) |-> LET st == IF k = 1 THEN 0 ELSE P[k - 1] + SepLen - 1 IN [st |-> st, en |-> P[k] + SepLen - 1, p |-> P[k] - 1 - st]]
+RefOf(s, F) == [k \in 1..Len(F) |-> IF F[k].p > Limit THEN [k |-> "limit", data |-> <<>>] ELSE Decode(SubSeqS(s, F[k].st + 1, F[k].st + F[k].p))]
+Ref(s) == RefOf(s, FrameTable(s))
+MaxPayloadOf(s, F) == LET tail == Len(s) - (IF Len(F) = 0 THEN 0 ELSE F[Len(F)].en)
+                          S == {F[k].p : k \in 1..Len(F)} \cup {tail}
+                      IN CHOOSE m \in S : \A x \in S : x <= m
 \* "safely within the limit": the exact threshold below which both paths accept under every chunking
-Safe(s) == MaxPayload(s) + SepLen <= Limit - 1
+SafeOf(s, F) == MaxPayloadOf(s, F) + SepLen <= Limit - 1
+Safe(s) == SafeOf(s, FrameTable(s))
 
 Quiescent == /\ unread = <<>>
              /\ (par.path = "copy" => (left = <<>> \/ active))
              /\ (par.path = "buf" => ~pending)
 \* C01/C02: for safe streams the outputs are exactly the reference decoding, whatever the chunking / path
-SafeAgree == Safe(sent) => /\ Len(out) <= Len(Ref(sent)) /\ \A i \in 1..Len(out) : out[i] = Ref(sent)[i]
-SafeComplete == (Safe(sent) /\ Quiescent) => out = Ref(sent)
-NoLimitOnSafe == Safe(sent) => \A i \in 1..Len(out) : out[i].k # "limit"
+SafeAgree == LET F == FrameTable(sent) R == RefOf(sent, F) IN
+             SafeOf(sent, F) => /\ Len(out) <= Len(R) /\ \A i \in 1..Len(out) : out[i] = R[i]
+SafeComplete == LET F == FrameTable(sent) IN (SafeOf(sent, F) /\ Quiescent) => out = RefOf(sent, F)
+NoLimitOnSafe == (\E i \in 1..Len(out) : out[i].k = "limit") => ~Safe(sent)
 \* C07: held bytes are bounded
 Held == IF par.path = "copy" THEN Len(left) + (IF active THEN Len(rbuf) ELSE 0) ELSE buflen
 Bound == Held <= Limit + par.maxread + SepLen
 \* C07: unterminated data beyond the bound has been rejected: what is held never contains more than limit+seplen
 \* bytes without a separator once a scan step has looked at it
 StaleFree == \A i \in 1..Len(out) : \A j \in 1..Len(out[i].data) : out[i].data[j] # Stale
-\* frame table of the reference decoding: start offset (0-based), end offset (exclusive, after the separator), payload length
-RECURSIVE FramesFrom(_, _)
-FramesFrom(s, base) == LET idx == Find(s, 1, Len(s)) IN
-   IF idx = 0 THEN <<>>
-   ELSE <<[st |-> base, en |-> base + idx - 1 + SepLen, p |-> idx - 1]>> \o FramesFrom(SubSeqS(s, idx + SepLen, Len(s)), base + idx - 1 + SepLen)
-Frames == FramesFrom(sent, 0)
 Unsafe(f) == f.p + SepLen >= Limit
 \* every delivered packet (or parse error) is a real frame starting at a frame boundary, or debris lying entirely inside a frame
 \* that is not safely within the limit
-Aligned == \A i \in 1..Len(out) : out[i].k \in {"pkt", "err"} =>
+Aligned == LET Frames == FrameTable(sent) IN
+   \A i \in 1..Len(out) : out[i].k \in {"pkt", "err"} =>
    LET d == out[i].data IN
    \E a \in 0..Len(sent) :
       /\ IsPrefixOf(d \o Sep, SubSeqS(sent, a + 1, Len(sent)))
@@ -169,12 +169,14 @@ Aligned == \A i \in 1..Len(out) : out[i].k \in {"pkt", "err"} =>
          \/ \E j \in 1..Len(Frames) : Frames[j].en = a
          \/ \E j \in 1..Len(Frames) : Unsafe(Frames[j]) /\ Frames[j].st <= a /\ a + Len(d) + SepLen <= Frames[j].en
 \* resync (C02, second sentence): at quiescence the frames after the last unsafe frame are exactly the last outputs
-LastUnsafe == LET U == {j \in 1..Len(Frames) : Unsafe(Frames[j])} IN IF U = {} THEN 0 ELSE CHOOSE j \in U : \A k \in U : k <= j
-TailLen == Len(sent) - (IF Len(Frames) = 0 THEN 0 ELSE Frames[Len(Frames)].en)
-Resync == (Quiescent /\ TailLen + SepLen <= Limit - 1) =>
-   LET j == LastUnsafe  n == Len(Frames) - j IN
-   /\ Len(out) >= n
-   /\ \A k \in 1..n : out[Len(out) - n + k] = Decode(SubSeqS(sent, Frames[j + k].st + 1, Frames[j + k].st + Frames[j + k].p))
+Resync == LET Frames == FrameTable(sent)
+              U == {j \in 1..Len(Frames) : Unsafe(Frames[j])}
+              j == IF U = {} THEN 0 ELSE CHOOSE x \in U : \A y \in U : y <= x
+              n == Len(Frames) - j
+              TailLen == Len(sent) - (IF Len(Frames) = 0 THEN 0 ELSE Frames[Len(Frames)].en)
+          IN (Quiescent /\ TailLen + SepLen <= Limit - 1) =>
+               /\ Len(out) >= n
+               /\ \A k \in 1..n : out[Len(out) - n + k] = Decode(SubSeqS(sent, Frames[j + k].st + 1, Frames[j + k].st + Frames[j + k].p))
 \* C06: every error outcome consumes at least one byte (a receive loop that skips errors makes progress)
 Progress == [][\A i \in 1..Len(out') : (i > Len(out) /\ out'[i].k \in {"err", "limit"}) => consumed' > consumed]_vars
 =============================================================================
